@@ -3,6 +3,7 @@ package props
 import (
 	"context"
 	"fmt"
+	goat "github.com/avos-io/goat"
 	"io"
 	"strings"
 
@@ -36,6 +37,7 @@ func c05(tier string) []*explore.Scenario {
 		out = append(out, c05Server(k, 0))
 	}
 	out = append(out, c05Server(2, 1))
+	out = append(out, c05TwoConnections(1), c05TwoConnections(0))
 	// (c) id allocation under concurrent starts: the C01 drivers (wire oracle reports duplicate ids)
 	out = append(out, donors("C05", c01(tier))...)
 	out = append(out, donors("C05", []*explore.Scenario{c02One([]streamCase{{"Bidi", "pingpong", "echo", 1, 0, 0}, {"Bidi", "pingpong", "echo", 1, 0, 0}}, 64, 2)})...)
@@ -376,4 +378,67 @@ func reverse(s string) string {
 		b[i], b[j] = b[j], b[i]
 	}
 	return string(b)
+}
+
+// c05TwoConnections: one Server object serves two direct connections; each
+// client numbers its calls from 1, so the same ids are in use on both. Calls
+// overlap (a slow handler on one connection while the other connection calls);
+// every caller gets its own reply on its own connection.
+func c05TwoConnections(bound int) *explore.Scenario {
+	fam := "C05/two-connections"
+	return &explore.Scenario{
+		Name: fmt.Sprintf("C05/two-connections/d=%d", bound), Family: fam, Prop: "C05", Bound: bound,
+		Run: func() {
+			w := env.NewWorld()
+			d := env.NewDirect(w, env.DirectOpts{Pipe: env.PipeOpts{Cap: 16}})
+			p2 := env.NewPipe(d.Tap, env.PipeOpts{Name: "w2", Cap: 16})
+			serve2Done := false
+			vsched.GoNamed("serve2", func() { d.Srv.Serve(context.Background(), p2.B); serve2Done = true })
+			cc2 := goat.NewClientConn(p2.A, "cli2", "srv")
+			vsched.Settle()
+			vsched.Explore(true)
+			release := make(chan struct{})
+			a, b, c := w.Rec("a", "Unary"), w.Rec("b", "Unary"), w.Rec("c", "Unary")
+			sa, sb := w.Rec("sa", "Bidi"), w.Rec("sb", "Bidi")
+			w.Unaries["a"] = func(r *env.Rec, ctx context.Context, in string) (string, error) {
+				<-release
+				return "R:" + in, nil
+			}
+			vsched.GoNamed("caller-a", func() { w.CallUnary(d.CC, context.Background(), a, "x") })
+			vsched.Quiesce()                                                                      // a (id 1 on connection 1) is in its handler
+			vsched.GoNamed("caller-b", func() { w.CallUnary(cc2, context.Background(), b, "y") }) // id 1 on connection 2
+			vsched.GoNamed("caller-sb", func() { streamCase{"Bidi", "pingpong", "echo", 1, 0, 0}.runCaller(w, cc2, context.Background(), sb) })
+			vsched.Quiesce()
+			close(release)
+			vsched.GoNamed("caller-c", func() { w.CallUnary(d.CC, context.Background(), c, "z") })
+			vsched.GoNamed("caller-sa", func() { streamCase{"Bidi", "pingpong", "echo", 1, 0, 0}.runCaller(w, d.CC, context.Background(), sa) })
+			vsched.Quiesce()
+			checkUnary(a, "x", fam)
+			checkUnary(b, "y", fam)
+			checkUnary(c, "z", fam)
+			for _, r := range []*env.Rec{sa, sb} {
+				if !r.CDone || r.CErr != io.EOF || !eqStrs(r.CRecv, r.HSent) || len(r.CRecv) != 1 {
+					vsched.Fail(fam+"|stream", "stream %s on its own connection did not complete with its own data: %s", r.Tag, r.Summary())
+				}
+			}
+			// nothing of one connection's conversation may appear on the other's wire
+			for _, e := range d.Tap.Events {
+				if e.Dir != "b2a" {
+					continue
+				}
+				dst := e.Rpc.GetHeader().GetDestination()
+				if (e.Wire == "w" && dst != "cli") || (e.Wire == "w2" && dst != "cli2") {
+					vsched.Fail(fam+"|wrong-connection", "an envelope for %q (id %d) was written on the connection of the other client (wire %s)", dst, e.Rpc.GetId(), e.Wire)
+				}
+			}
+			d.Pipe.A.Break()
+			d.Pipe.B.Break()
+			p2.A.Break()
+			p2.B.Break()
+			vsched.Quiesce()
+			if !d.ServeDone || !serve2Done {
+				vsched.Fail(fam+"|serve-hang", "Serve did not return on both connections after they closed")
+			}
+		},
+	}
 }
